@@ -275,6 +275,17 @@ fn cmp_rendered(out: &str, s: &oracle::S, exact: bool) -> Option<String> {
     None
 }
 
+
+/// the schema a tree stands for, read off the tree itself (for renderer-vs-tree conformance, C16)
+fn s_from_v(v: &V) -> oracle::S {
+    oracle::S {
+        name: v.name.clone(),
+        text: v.text,
+        attrs: v.attrs.iter().map(|(m, a)| (*m, a.clone())).collect(),
+        kids: v.kids_by_position().iter().map(|(m, c)| (*m, c.standalone, s_from_v(c))).collect(),
+    }
+}
+
 // ------------------------------------------------------------------------------------------------ per-sequence checks
 fn check_docs(prop: &str, docs: &[Vec<u8>]) -> Option<String> {
     let nodes: Vec<Node> = match docs.iter().map(|d| dom(d)).collect::<Option<Vec<_>>>() {
@@ -1644,6 +1655,12 @@ fn check_ops(ops: &[String]) -> Option<String> {
         }
         if v.standalone != root_standalone || v.text != root_text {
             return Some(format!("after step {step} ({op}) root flags changed unexpectedly"));
+        }
+    }
+    // the rendering reflects exactly the tree: children, attributes, optionality, multiplicity, text
+    if let Ok(v) = view(&root) {
+        if let Some(e) = cmp_rendered(&root.to_serde_struct(&Options::quick_xml_de()), &s_from_v(&v), true) {
+            return Some(format!("the rendering does not reflect the tree built by the operations: {e}"));
         }
     }
     // rendering reflects the children (names are plain single letters: field ident == name)
